@@ -64,7 +64,8 @@ def run_case(case, workdir):
     names = desc["fields"]
     with vpool.controlled():
         pck = PlotfileCooker(path)
-        sels = [("name", names[1], [1]), ("names", [names[2], names[0]], [2, 0]), ("slice", slice(0, 2), [0, 1])]
+        sels = [("name", names[1], [1]), ("names", [names[2], names[0]], [2, 0]), ("slice", slice(0, 2), [0, 1]),
+                ("names_adjacent_descending", [names[1], names[0]], [1, 0]), ("list_adjacent_descending", [2, 1], [2, 1])]
         reused = {tag: pck[sel] for tag, sel, fidx in sels}      # ONE selector object per form, queried again and again
         nlev = ref.nlevels
         for lv in range(nlev):
